@@ -260,8 +260,25 @@ func (p *Prog) CountedLoopBound(op ssa.Instruction) (bound ssa.Value, why string
 	if idx == nil {
 		return nil, "loop index is not a header phi"
 	}
-	if !l.Blocks[l.Header.Succs[0]] || l.Blocks[l.Header.Succs[1]] {
-		return nil, "the true edge of the loop test does not enter the loop body"
+	switch {
+	case l.Blocks[l.Header.Succs[0]] && !l.Blocks[l.Header.Succs[1]]:
+		// `for idx OP bound { ... }`: the body is entered when the test holds
+	case !l.Blocks[l.Header.Succs[0]] && l.Blocks[l.Header.Succs[1]]:
+		// `for { if idx OP bound { break }; ... }`: the body is entered when the test fails
+		switch opTok {
+		case token.LSS:
+			opTok = token.GEQ
+		case token.GEQ:
+			opTok = token.LSS
+		case token.GTR:
+			opTok = token.LEQ
+		case token.LEQ:
+			opTok = token.GTR
+		default:
+			return nil, "loop test not recognised"
+		}
+	default:
+		return nil, "the loop test does not separate the loop body from the exit"
 	}
 	var init ssa.Value
 	step := int64(0)
